@@ -7,6 +7,7 @@ import Proofs.C17_Lemmas
 import Proofs.C17_Object
 import Proofs.C17_Pairing
 import Proofs.C17_Source
+import Proofs.C17_Disreg
 import Mathlib.Algebra.Order.Ring.Abs
 
 namespace Atomman.C17
@@ -1532,6 +1533,159 @@ example :
     slipVector exCell exPos0 pos1 [3, 1] 0 = slipVector exCell exPos0 pos1 [1, 3] 0 ∧
     (match slipVectorCall exCell exPos0 pos1 none (some fun _ => [3, 1]) (some fun _ => [1]) 0 with
       | .ok v => v | .error _ => zero3) = V3.smul 1 (exUB - exUA) := by
+  decide +kernel
+
+
+/-! ### round 6, part 2: renumbering / translation of disregistry and of displacement(); slip_vector and asdict as whole calls -/
+
+/-- **disregistry_renumbered.**  The disregistry profile does not depend on the order in which the atoms are listed: any
+    consistent renumbering of the two systems (a permutation of the per-atom rows `(x, y, displacement)`) gives the same
+    planes, the same columns, the same means and the same profile — or the same refusal.  No hypothesis (closes the
+    renumbering half of PARTIAL `disregistry_translation`). -/
+theorem disregistry_renumbered (atol rtol : K) (atoms atoms' : List (K × K × V3 K)) (h : atoms.Perm atoms') (midy : K) :
+    disregistry atol rtol atoms midy = disregistry atol rtol atoms' midy :=
+  disregistry_perm_aux atol rtol atoms atoms' h midy
+
+/-- **disregistry_translated_rtol0.**  With a purely absolute tolerance (`rtol = 0`) the model of `disregistry` is
+    covariant under a joint translation: all in-plane coordinates moved by `tx`, all plane coordinates and the plane position
+    by `ty` ⇒ the same refusal, or the same profile with its coordinates moved by `tx`.  Hence the relative tolerance of
+    `numpy.isclose` is the only reason the real function is not translation invariant (candidates
+    `disregistry:isclose-far-origin`). -/
+theorem disregistry_translated_rtol0 (atol : K) (atoms : List (K × K × V3 K)) (midy tx ty : K) :
+    disregistry atol 0 (atoms.map fun a => (a.1 + tx, a.2.1 + ty, a.2.2)) (midy + ty)
+      = (disregistry atol 0 atoms midy).map (fun prof => prof.map fun e => (e.1 + tx, e.2)) :=
+  disregistry_shift_aux atol atoms midy tx ty
+
+/-- **displacementCall_translated / _renumbered.**  `displacement()` as a whole — every `box_reference`, the refusals
+    included — is unchanged by a joint translation and carried along by a consistent renumbering. -/
+theorem displacementCall_translated (n0 n1 : Nat) (c0 c1 : Cell K) (ref : BoxRef) (pos0 pos1 : Nat → V3 K) (t : V3 K) :
+    displacementCall n0 n1 c0 c1 ref (fun i => pos0 i + t) (fun i => pos1 i + t)
+      = displacementCall n0 n1 c0 c1 ref pos0 pos1 :=
+  displacementCall_translated_aux n0 n1 c0 c1 ref pos0 pos1 t
+
+theorem displacementCall_renumbered (n0 n1 : Nat) (c0 c1 : Cell K) (ref : BoxRef) (pos0 pos1 : Nat → V3 K) (σ : Nat → Nat) :
+    displacementCall n0 n1 c0 c1 ref (fun i => pos0 (σ i)) (fun i => pos1 (σ i))
+      = (displacementCall n0 n1 c0 c1 ref pos0 pos1).map (fun d i => d (σ i)) :=
+  displacementCall_renumbered_aux n0 n1 c0 c1 ref pos0 pos1 σ
+
+theorem keyOf_isSome_iff (k : String) : (keyOf k).isSome ↔ k ∈ allKeyNames := by
+  unfold keyOf allKeyNames
+  split_ifs <;> simp_all
+
+theorem planKeys_accepts_iff : ∀ ks : List String, (planKeys ks).2 = false ↔ ∀ k ∈ ks, k ∈ allKeyNames
+  | [] => by simp [planKeys]
+  | k :: ks => by
+    have ih := planKeys_accepts_iff ks
+    have hk := keyOf_isSome_iff k
+    unfold planKeys
+    cases h : keyOf k with
+    | none =>
+      simp only [h, Option.isSome_none, Bool.false_eq_true, false_iff] at hk
+      simp only [Bool.true_eq_false, false_iff]
+      intro hall
+      exact hk (hall k List.mem_cons_self)
+    | some p =>
+      simp only [h, Option.isSome_some, true_iff] at hk
+      simp only [ih, List.mem_cons, forall_eq_or_imp, hk, true_and]
+
+theorem asdictPlan_default : asdictPlan none = ([.strain, .inv1, .inv2, .inv3, .angvel2, .nye], false) := by
+  decide
+
+/-- slip_vector refusals, exactly when -/
+theorem slipVectorEntry_refuses_iff (n0 n1 : Nat) (c : Cell K) (pos0 pos1 : Nat → V3 K)
+    (nb cu at_ : Option (Nat → List Nat)) (i : Nat) :
+    ((∃ v, slipVectorEntry n0 n1 c pos0 pos1 nb cu at_ i = .ok v) ↔
+      (n0 = n1 ∧ ((nb.isSome ∧ cu = none) ∨ (nb = none ∧ (cu.isSome ∨ at_.isSome))))) ∧
+    (slipVectorEntry n0 n1 c pos0 pos1 nb cu at_ i = .error .assert ↔ (n0 = n1 ∧ nb.isSome ∧ cu.isSome)) ∧
+    (slipVectorEntry n0 n1 c pos0 pos1 nb cu at_ i = .error .value ↔ (n0 ≠ n1 ∨ (nb = none ∧ cu = none ∧ at_ = none))) := by
+  unfold slipVectorEntry slipVectorCall
+  by_cases h : n0 = n1 <;> cases nb <;> cases cu <;> cases at_ <;> simp [h, pickNeighbors]
+
+section sobj
+variable (mag : V3 K → K) (big : K)
+
+theorem val_isSome (a : SIn K) (pv : Nat → List (V3 K)) (hp : a.pvec = some pv) (p : SProp) :
+    ∃ v, a.val mag big p = some v := by
+  cases p <;> simp [SIn.val, SIn.valStrain, SIn.valRotation, SIn.valG, hp]
+
+theorem SObj.readsUntil_coherent (pv : Nat → List (V3 K)) : ∀ (ps : List SProp) (o : SObj K), Coherent mag big o →
+    o.inp.pvec = some pv →
+    ∃ vs, (o.readsUntil mag big ps).2 = some vs ∧ vs.map some = ps.map (o.inp.val mag big) ∧
+      (o.readsUntil mag big ps).1.inp = o.inp ∧ Coherent mag big (o.readsUntil mag big ps).1
+  | [], o, h, _ => ⟨[], rfl, rfl, rfl, h⟩
+  | p :: ps, o, h, hp => by
+    obtain ⟨h1, h2, h3⟩ := SObj.read_coherent mag big o h p
+    obtain ⟨v, hv⟩ := val_isSome mag big o.inp pv hp p
+    obtain ⟨vs, r1, r2, r3, r4⟩ := SObj.readsUntil_coherent pv ps (o.read mag big p).1 h1 (by rw [h2]; exact hp)
+    refine ⟨v :: vs, ?_, ?_, ?_, ?_⟩
+    · simp only [SObj.readsUntil, h3, hv, r1, Option.map_some]
+    · simp only [List.map_cons, r2, h2, hv]
+    · simp only [SObj.readsUntil, h3, hv]; rw [r3, h2]
+    · simp only [SObj.readsUntil, h3, hv]; exact r4
+
+/-- **SObj.asdict_spec** -/
+theorem SObj.asdict_spec (o : SObj K) (h : Coherent mag big o) (pv : Nat → List (V3 K)) (hp : o.inp.pvec = some pv)
+    (props : Option (List String)) :
+    ∃ vs, vs.map some = (asdictPlan props).1.map (o.inp.val mag big) ∧
+      (o.asdict mag big props).2 = (if (asdictPlan props).2 then .error .assert else .ok vs) ∧
+      (o.asdict mag big props).1.inp = o.inp ∧ Coherent mag big (o.asdict mag big props).1 := by
+  obtain ⟨vs, r1, r2, r3, r4⟩ := SObj.readsUntil_coherent mag big pv (asdictPlan props).1 o h hp
+  refine ⟨vs, r2, ?_, ?_, ?_⟩ <;> simp only [SObj.asdict, r1] <;> assumption
+
+/-- without p vectors: ValueError unless the FIRST key is unknown -/
+theorem SObj.asdict_no_reference (a : SIn K) (hp : a.pvec = none) (props : Option (List String)) :
+    ((SObj.fresh a).asdict mag big props).2 =
+      (match (asdictPlan props).1 with
+       | [] => if (asdictPlan props).2 then .error .assert else .ok []
+       | _ :: _ => .error .value) := by
+  unfold SObj.asdict
+  generalize asdictPlan props = plan
+  obtain ⟨ks, bad⟩ := plan
+  cases ks with
+  | nil => simp [SObj.readsUntil]
+  | cons p ps =>
+    have : ((SObj.fresh a).read mag big p).2 = none := by
+      have := (SObj.read_coherent mag big _ (SObj.fresh_coherent mag big a) p).2.2
+      rw [this]
+      cases p <;> simp [SObj.fresh, SIn.val, SIn.valStrain, SIn.valRotation, SIn.valG, hp]
+    simp [SObj.readsUntil, this]
+
+end sobj
+
+/-! non-vacuity (ℚ) -/
+
+def errOf {α : Type} : Except NbrErr α → Option NbrErr
+  | .ok _ => none
+  | .error e => some e
+
+/-- `disregistry_renumbered` / `disregistry_translated_rtol0` on the two-plane instance of `disregistry_rigid_full` (listed in
+    another order; moved by `tx = 5/2`, `ty = -3`), and a case where the relative tolerance DOES matter: far from the origin
+    (`ty = 200000`) `rtol = 1/100000` merges the two planes and the call refuses, `rtol = 0` does not. -/
+example :
+    let uA : V3 ℚ := ⟨1/4, 0, 1/8⟩; let uB : V3 ℚ := ⟨0, 0, -1/8⟩
+    let atoms : List (ℚ × ℚ × V3 ℚ) := [(0, 0, uB), (2, 0, uB), (1, 1, uA), (3, 1, uA), (1, 2, uA), (0, -1, uB)]
+    let atoms' : List (ℚ × ℚ × V3 ℚ) := [(3, 1, uA), (0, -1, uB), (0, 0, uB), (1, 2, uA), (1, 1, uA), (2, 0, uB)]
+    let moved := fun (tx ty : ℚ) => atoms.map fun a => (a.1 + tx, a.2.1 + ty, a.2.2)
+    disregistry (1/100000000) (1/100000) atoms' (1/2) = disregistry (1/100000000) (1/100000) atoms (1/2) ∧
+    disregistry (1/100000000) 0 (moved (5/2) (-3)) (1/2 - 3)
+      = some [(5/2, uA - uB), (7/2, uA - uB), (9/2, uA - uB), (11/2, uA - uB)] ∧
+    disregistry (1/100000000) (1/100000) (moved 0 200000) (1/2 + 200000) = none ∧
+    (disregistry (1/100000000) 0 (moved 0 200000) (1/2 + 200000)).isSome = true := by
+  decide +kernel
+
+/-- `slipVectorEntry` / `asdictPlan` / `SObj.asdict`: the atom count is checked before the neighbour block; an unknown key
+    stops `asdict` AFTER the keys before it were read (and cached); without p vectors the first read refuses. -/
+example :
+    errOf (slipVectorEntry 4 3 exCell exPos0 exPos0 (some fun _ => [1]) (some fun _ => [1]) none 0) = some .value ∧
+    errOf (slipVectorEntry 4 4 exCell exPos0 exPos0 (some fun _ => [1]) (some fun _ => [1]) none 0) = some .assert ∧
+    errOf (slipVectorEntry 4 4 exCell exPos0 exPos0 none (some fun _ => [1]) (some fun _ => [3]) 0) = none ∧
+    asdictPlan (some ["rotation", "G", "bogus", "nye"]) = ([.rotation, .G], true) ∧
+    asdictPlan (some ["nye", "strain"]) = ([.nye, .strain], false) ∧
+    errOf ((SObj.fresh apiIn).asdict apiMag 10000000000000000 (some ["strain", "Strain"])).2 = some .assert ∧
+    (((SObj.fresh apiIn).asdict apiMag 10000000000000000 (some ["strain", "Strain"])).1.cache .strain).isSome = true ∧
+    errOf ((SObj.fresh apiIn).asdict apiMag 10000000000000000 none).2 = none ∧
+    errOf ((SObj.fresh { apiIn with pvec := none }).asdict apiMag 10000000000000000 none).2 = some .value ∧
+    errOf ((SObj.fresh { apiIn with pvec := none }).asdict apiMag 10000000000000000 (some ["bogus", "G"])).2 = some .assert := by
   decide +kernel
 
 end Atomman.C17
